@@ -84,11 +84,15 @@ __CPROVER_ensures(!CS_WRITES(chan, value, __CPROVER_old(chan->is_dirty)) || (
 		: (g_cb_calls == __CPROVER_old(g_cb_calls) + 1 &&
 		   (__CPROVER_return_value == 0) == (g_cb_ret == 0))) &&
 	(__CPROVER_old(chan->is_dirty) ? chan->is_dirty == __CPROVER_old(chan->is_dirty) : chan->is_dirty == 1)))
-__CPROVER_ensures(__CPROVER_return_value == 0 || g_err > __CPROVER_old(g_err))
+/* diagnostics: an error is reported exactly on failure (at most two lines) */
+__CPROVER_ensures(__CPROVER_return_value == 0 ? g_err == __CPROVER_old(g_err) :
+	(g_err > __CPROVER_old(g_err) && g_err <= __CPROVER_old(g_err) + 2u))
+__CPROVER_ensures(g_warn == __CPROVER_old(g_warn) &&
+	g_diag - __CPROVER_old(g_diag) == g_err - __CPROVER_old(g_err))
 ;
 
 /* ---- ghost log: one entry per chan_set call, in call order ---- */
-#define CS_LOGN 8
+#define CS_LOGN 16
 unsigned g_cs_n;                    /* number of chan_set calls so far */
 struct chan *g_cs_chan[CS_LOGN];    /* channel written by call k */
 long g_cs_type[CS_LOGN];            /* value.type handed to call k */
